@@ -134,6 +134,7 @@ pub fn run_scenario(sc: &J, out: &mut Vec<J>) {
                 "read" => match sd.read(&mut blocks, BlockIdx(blk)) {
                     Ok(()) => {
                         let mut ids = Vec::new();
+                        let zeros: Vec<bool> = blocks.iter().map(|b| b.contents.iter().all(|&x| x == 0)).collect();
                         for (i, b) in blocks.iter().enumerate() {
                             // what the card's memory holds there, by id (registered on demand)
                             let mut c = card.borrow_mut();
@@ -141,7 +142,7 @@ pub fn run_scenario(sc: &J, out: &mut Vec<J>) {
                             let id = if b.contents == crate::sim::default_block(bi) { -2 - (bi as i64 & 0x3FFF_FFFF) } else { c.pay_id(&b.contents) };
                             ids.push(id);
                         }
-                        json!({"k": "ok", "e": "", "pay": ids, "val": [0, 0]})
+                        json!({"k": "ok", "e": "", "pay": ids, "val": [0, 0], "zeros": zeros})
                     }
                     Err(e) => json!({"k": "err", "e": err_name(&e), "pay": [], "val": [0, 0]}),
                 },
